@@ -126,6 +126,9 @@ def run(ctx: Ctx):
             shift = [(0.0, 0.0, 0.0), (0.9, -0.6, 0.4), (15.0, 15.0, 15.0)][(gi + mi) % 3]
             # outliers included only for the first grid, so that every non-equidistant radial grid exercises the NaN rule
             recs += run_grid(ctx, rng, spec, molname, nframes, outliers=bool(gi == 0 and mi == 0), d=d, shift=shift)
+    # a planar second molecule far from the origin (any real MD box): float32 coordinates carry ~1e-6 A of noise there, which
+    # must not decide the handedness of the principal-axis frame
+    recs += run_grid(ctx, rng, ("8", "7", "[0.2, 0.35]"), "planar4", nframes, outliers=False, d=d, shift=(40.0, 40.0, 40.0))
     # the grid's own pseudotrajectory (real Pseudotrajectory class), every row
     recs += run_grid(ctx, rng, ("5", "7", "[0.2, 0.35]"), "generic4", 0, outliers=False, d=d, use_pt=True)
     if thorough:
